@@ -823,3 +823,142 @@ theorem boundC04_run {P : Sketch → Prop} (L : SketchLaws P) {p : Params} (hq :
 
 end Unsync
 end MiniMoka
+
+namespace MiniMoka
+namespace Unsync
+
+open Spec
+
+/-! ### the trace oracle `workedOffC04` -/
+
+/-- The per-triple check of `Spec.workedOffC04` (`snap, lookup, snap`). -/
+def checkWorkedOff (cap batch : Nat) (before : Snap) (op : Op) (after : Snap) : Bool :=
+  let lookup := match op with
+    | .has _ => true
+    | .get _ => true
+    | _ => false
+  !(lookup && decide (snapWeight before > cap)) || decide (snapWeight after ≤ cap) ||
+    decide (after.entries.length + batch ≤ before.entries.length)
+
+theorem workedOffC04_triple (c b : Nat) (before : Snap) (op : Op) (ob : Obs) (after : Snap)
+    (rest : Trace) :
+    workedOffC04 c b ((.snap, .snap before) :: (op, ob) :: (.snap, .snap after) :: rest) =
+      (checkWorkedOff c b before op after &&
+        (match ob with
+         | .panic _ => true
+         | _ => workedOffC04 c b ((.snap, .snap after) :: rest))) := by
+  conv => lhs; unfold workedOffC04
+  rfl
+
+theorem workedOffC04_skip (c b : Nat) (x : Op × Obs) (tr : Trace)
+    (h : ∀ bf op ob a rest, x :: tr ≠ (.snap, .snap bf) :: (op, ob) :: (.snap, .snap a) :: rest) :
+    workedOffC04 c b (x :: tr) = workedOffC04 c b tr := by
+  conv => lhs; unfold workedOffC04
+  split
+  · rename_i heq
+    exact absurd heq (h _ _ _ _ _)
+  · rename_i heq
+    cases heq
+    rfl
+  · rename_i heq
+    cases heq
+
+theorem snapshot_length (p : Params) (s : UState) :
+    (snapshot p s).entries.length = s.map.length := by
+  show (sortBy (·.key) (s.map.map (entryView s))).length = _
+  rw [length_sortBy, List.length_map]
+
+/-- A lookup is the maintenance as far as the residents and their weight go; so it brings an
+over-capacity cache back within capacity or removes a full batch. -/
+theorem step_checkWorkedOff {P : Sketch → Prop} (L : SketchLaws P) {p : Params} (hq : NoQuirks p)
+    (hsm : SmallSketch p) {s : UState} (hi : Inv P p s) {c : Nat} (hcap : p.cap = some c)
+    (op : Op) :
+    checkWorkedOff c EVICTION_BATCH_SIZE (snapshot p s) op (snapshot p (step p s op).1) = true := by
+  have hi' := step_inv L hq hsm hi op
+  have hw := maintain_works_off hq hi.inv hcap
+  have hlook : ∀ (s' : UState), s' = (step p s op).1 → s'.ws = (maintain p s).ws →
+      s'.map = (maintain p s).map →
+      (decide (snapWeight (snapshot p (step p s op).1) ≤ c) ||
+        decide ((snapshot p (step p s op).1).entries.length + EVICTION_BATCH_SIZE ≤
+          (snapshot p s).entries.length)) = true := by
+    intro s' hs' h1 h2
+    subst hs'
+    rw [snapshot_weight hi'.inv, snapshot_length, snapshot_length, h1, h2]
+    rcases hw with h | h
+    · simp [h]
+    · simp [h]
+  have hst := step_state L hq hsm hi op
+  cases op with
+  | get k =>
+    dsimp only at hst
+    have := hlook _ rfl (by rw [hst]; exact get_ws p s k) (by rw [hst]; exact get_map p s k)
+    simp only [checkWorkedOff, Bool.or_eq_true] at this ⊢
+    rcases this with h | h
+    · exact Or.inl (Or.inr h)
+    · exact Or.inr h
+  | has k =>
+    dsimp only at hst
+    have := hlook _ rfl (by rw [hst, containsKey_state]) (by rw [hst, containsKey_state])
+    simp only [checkWorkedOff, Bool.or_eq_true] at this ⊢
+    rcases this with h | h
+    · exact Or.inl (Or.inr h)
+    · exact Or.inr h
+  | _ => simp [checkWorkedOff]
+
+/-- `workedOffC04` accepts every run of the model from a state satisfying the invariant. -/
+theorem workedOffC04_run {P : Sketch → Prop} (L : SketchLaws P) {p : Params} (hq : NoQuirks p)
+    (hsm : SmallSketch p) {c : Nat} (hcap : p.cap = some c) :
+    ∀ (n : Nat) (h : List Op), h.length ≤ n → ∀ (s : UState), Inv P p s →
+      workedOffC04 c EVICTION_BATCH_SIZE (run p s h) = true := by
+  intro n
+  induction n with
+  | zero =>
+    intro h hl s _
+    have : h = [] := List.eq_nil_of_length_eq_zero (by omega)
+    subst this
+    simp [run, workedOffC04]
+  | succ n ih =>
+    intro h hl s hi
+    cases h with
+    | nil => simp [run, workedOffC04]
+    | cons op1 t1 =>
+      rw [run_cons]
+      have hi1 := step_inv L hq hsm hi op1
+      simp only [List.length_cons] at hl
+      have IH1 := ih t1 (by omega) _ hi1
+      by_cases hm : ∃ op2 t3, op1 = .snap ∧ t1 = op2 :: .snap :: t3
+      · obtain ⟨op2, t3, rfl, rfl⟩ := hm
+        rw [step_snap L hq hsm hi]
+        dsimp only
+        rw [run_cons, run_cons]
+        have hi2 := step_inv L hq hsm hi op2
+        rw [step_snap L hq hsm hi2]
+        dsimp only
+        rw [workedOffC04_triple, Bool.and_eq_true]
+        refine ⟨step_checkWorkedOff L hq hsm hi hcap op2, ?_⟩
+        have IH2 := ih (.snap :: t3) (by simp only [List.length_cons] at hl ⊢; omega) _ hi2
+        rw [run_cons, step_snap L hq hsm hi2] at IH2
+        dsimp only at IH2
+        split
+        · rfl
+        · exact IH2
+      · rw [workedOffC04_skip, IH1]
+        intro b op ob a rest heq
+        apply hm
+        injection heq with h1 h2
+        have hop1 : op1 = .snap := by injection h1
+        cases t1 with
+        | nil => simp [run] at h2
+        | cons op2 t2 =>
+          rw [run_cons] at h2
+          injection h2 with _ h3
+          cases t2 with
+          | nil => simp [run] at h3
+          | cons op3 t3 =>
+            rw [run_cons] at h3
+            injection h3 with h4 _
+            have hop3 : op3 = .snap := by injection h4
+            exact ⟨op2, t3, hop1, by rw [hop3]⟩
+
+end Unsync
+end MiniMoka
